@@ -408,6 +408,34 @@ inline std::string make_char_constant(
     return fmt::format("'{}'", escape_string_literal(constant_value));
 }
 
+inline std::string to_floating_point_literal(const std::string_view value)
+{
+    assert(!value.empty());
+
+    // XML floats are decimal: "010" is 10 and "08" is valid, but in C++ the
+    // former is an octal integer literal and the latter is not a literal at
+    // all. Integer-looking lexemes like "16777217" are `int` literals which
+    // can't be used to brace-initialize `float`/`double` unless they are
+    // exactly representable. Hence, strip redundant leading zeros and make
+    // sure the result is a floating-point literal.
+    const auto has_sign = (value[0] == '-') || (value[0] == '+');
+    auto digits = value.substr(has_sign ? 1 : 0);
+    while((digits.size() > 1) && (digits[0] == '0')
+          && (digits[1] >= '0') && (digits[1] <= '9'))
+    {
+        digits.remove_prefix(1);
+    }
+
+    std::string res{value.substr(0, has_sign ? 1 : 0)};
+    res += digits;
+    if(digits.find_first_of(".eE") == std::string_view::npos)
+    {
+        res += ".0";
+    }
+
+    return res;
+}
+
 inline std::string numeric_literal_to_value(
     const std::string_view value, const std::string_view type)
 {
@@ -428,7 +456,7 @@ inline std::string numeric_literal_to_value(
             return fmt::format("-::std::numeric_limits<{}>::infinity()", type);
         }
 
-        return std::string{value};
+        return to_floating_point_literal(value);
     }
 
     return utils::to_integer_literal(value, type);
